@@ -27,7 +27,8 @@ Abstract document (plain picklable literals)::
 Layout (all optional)::
 
     {"indent": "2" | "0" | "4" | "tab", "insert": {base_pos: [lines]}, "taglines": 1 | 2,
-     "tagcomment": bool, "eol": "\\n" | "\\r\\n", "final_newline": bool}
+     "tagcomment": bool, "eol": "\\n" | "\\r\\n" | "\\r", "eol_at": {line index: eol}, "final_newline": bool,
+     "trail": (blanks, kinds | "all"), "strip_colon": bool}
 
 ``insert`` puts extra (blank / comment) lines *before* base line number
 ``base_pos`` (0-based index in the un-deviated rendering; ``nbase`` = after the
@@ -111,6 +112,10 @@ class _Out(object):
         self.insert = layout.get("insert") or {}
         self.taglines = layout.get("taglines")
         self.tagcomment = layout.get("tagcomment", False)
+        # trailing whitespace: (blanks, kinds of lines that get them | "all"); never on doc-string content lines
+        self.trail = layout.get("trail")
+        # BEHAVE_STRIP_STEPS_WITH_TRAILING_COLON=yes: a step that carries a doc-string or table loses a trailing ':'
+        self.strip_colon = layout.get("strip_colon", False)
         self.lines = []
         self.base = 0
         self.indoc = set()      # base positions at which an inserted line would be doc-string content
@@ -125,6 +130,11 @@ class _Out(object):
         if self._in_doc:
             self.indoc.add(self.base)
         self._flush_inserts()
+        if self.trail and kind != "doc_line" and (self.trail[1] == "all" or kind in self.trail[1]):
+            if not raw:
+                text = self.unit * level + text
+                raw = True
+            text += self.trail[0]
         if raw:
             self.lines.append(text)
         else:
@@ -211,6 +221,8 @@ def _steps(out, level, steps, ctx, owner):
         e = {"kind": "step", "keyword": alias.rstrip(), "name": name.strip(), "line": n, "text": None, "table": None,
              "type": sorted(types)[0] if len(types) == 1 else AnyOf(sorted(types)),
              "_akind": kind, "_alias": alias}
+        if out.strip_colon and arg is not None and e["name"].endswith(u":"):
+            e["name"] = e["name"][:-1]
         if arg is not None and arg[0] == "both":
             # a step that carries a doc-string AND a table, in either order
             for part in ((arg[2], arg[3]) if arg[1] == "text" else (arg[3], arg[2])):
@@ -329,9 +341,13 @@ def _result(out, exp, layout):
     out.finish()
     layout = layout or {}
     eol = layout.get("eol", u"\n")
-    text = eol.join(out.lines)
-    if out.lines and layout.get("final_newline", True):
-        text += eol
+    eol_at = layout.get("eol_at") or {}          # {index of the line: its own line end} (mixed line endings)
+    parts = []
+    for i, line in enumerate(out.lines):
+        parts.append(line)
+        if i + 1 < len(out.lines) or layout.get("final_newline", True):
+            parts.append(eol_at.get(i, eol))
+    text = u"".join(parts)
     return {"text": text, "lines": out.lines, "expected": exp, "nbase": out.base, "indoc": out.indoc, "ann": out.ann}
 
 
